@@ -157,6 +157,7 @@ def item(c):
     else:
         raise ValueError(op)
     keep = None
+    keep2 = None
     form = c.get('form', 'binary')
     if form != 'binary':
         # the in-place operator on A itself; 'inplace_after_view': a copy and a to_wirevector() of A were taken first (the
@@ -190,6 +191,7 @@ def item(c):
         if res.rows * res.columns > 1:
             res[res.rows - 1, res.columns - 1] = pyrtl.Const(0, bitwidth=res.bits)
         keep = A
+        keep2 = B if two else None
         res = M.Matrix(res.rows, res.columns, res.bits, value=snapshot, max_bits=mb)
 
     def oracle(ins):
@@ -238,12 +240,16 @@ def item(c):
         out = exp_of(lst, rb, exact=exact)
         if keep is not None:
             out.update(exp_of(a, keep.bits, prefix='k'))
+        if keep2 is not None:
+            out.update(exp_of(b, keep2.bits, prefix='q'))
         return out
     spec = {'outs': outs_of(res), 'oracle': oracle}
     if isinstance(res, M.Matrix):
         spec['widths'] = {n: res.bits for n in spec['outs']}
     if keep is not None:
         spec['outs'].update(outs_of(keep, prefix='k'))
+    if keep2 is not None:
+        spec['outs'].update(outs_of(keep2, prefix='q'))
     return spec
 
 
@@ -474,6 +480,14 @@ def cases(tier, seed):
             if op == 'matmul' and False:
                 continue
             out.append(dict({'op': op, 'r': r, 'c': k, 'bits': 2, 'mutate_result': True}, **extra))
+    # stacking: the stacked matrix and its operands are independent afterwards
+    for op, extra in (('hstack', {'r2': 2, 'c2': 1}), ('vstack', {'r2': 1, 'c2': 2}), ('concat0', {'r2': 2, 'c2': 1}), ('concat1', {'r2': 1, 'c2': 2})):
+        out.append(dict({'op': op, 'r': 2, 'c': 2, 'bits': 2, 'bits2': 2, 'mutate_result': True}, **extra))
+    # a vector reshaped into a proper matrix, both orders (and back)
+    for (r, k) in ((1, 4), (4, 1), (1, 6), (6, 1)):
+        for order in 'CF':
+            for shape in ([2, r * k // 2], [r * k // 2, 2], [k, r]):
+                out.append({'op': 'reshape', 'r': r, 'c': k, 'bits': 3, 'order': order, 'shape': shape})
     for form in ('inplace', 'inplace_after_view'):
         for (r, k) in ((1, 1), (2, 2), (2, 3)):
             for bits, b2 in ((3, 3), (3, 2), (2, 4)):
